@@ -64,8 +64,12 @@ def parse_type(s: str) -> TypeSpec:
         inner = m.group(1).strip()
         if inner.startswith("("):
             kinds = [k.strip() for k in _split_top(inner[1:-1])]
+            kinds = ["arr:" + k[:-2] if k.endswith("[]") else k for k in kinds]      # int[] -> 1-D array component of symbolic length
             return TypeSpec("list", elem=("tuple", kinds))
         return TypeSpec("list", elem=inner)
+    if s.startswith("series:") or s.startswith("frame:"):
+        b, _, rest = s.partition(":")
+        return TypeSpec(b, elem=parse_type(rest))
     if s.startswith("opt:"):
         return TypeSpec("opt", elem=parse_type(s[4:]))
     if s.startswith("obj:"):
@@ -80,6 +84,8 @@ def static_matches(ts: TypeSpec, v, repo=None, exact=False) -> bool:
     from .values import is_boolv, is_intv, is_numv
     if ts.base == "any":
         return True
+    if ts.base in ("series", "frame"):
+        return isinstance(v, Opaque) and v.tag == ts.base
     if ts.base == "opt":
         from .values import OptV
         return v is NONE or isinstance(v, OptV) or static_matches(ts.elem, v, repo, exact)
